@@ -13,7 +13,7 @@ import (
 )
 
 func init() {
-	register("C20", "Error well-formedness: (R1) every call of a rule's addError passes, on every path, a Message option whose text is provably non-empty and an At option whose argument is a parser-assigned position (must-set analysis of the variadic option slice through appends and phis); (R2) every error constructor call (Errorf/ErrorPathf/ErrorPosf/ErrorLocf, fmt.Errorf, errors.New) has a provably non-empty message, every gqlerror.Error literal outside the constructors sets Message or is completed by options, and ErrorPosf reaches ErrorLocf on every path; (R3) the struct tags of gqlerror.Error and Location give the response shape and no custom marshaller overrides it; (R4) ast.Path elements have string/int underlying types, any custom marshaller does not quote names with Go syntax, UnmarshalJSON maps string->PathName and float64->PathIndex, String handles every implementer; (R5) the file, line and column of every ErrorLocf call come from one position (or the lexer's own state), and every AST node the loader synthesises carries a Position.", runC20)
+	register("C20", "Error well-formedness: (R1) every call of a rule's addError passes, on every path, a Message option whose text is provably non-empty and an At option whose argument is a parser-assigned position (must-set analysis of the variadic option slice through appends and phis); (R2) every error constructor call (Errorf/ErrorPathf/ErrorPosf/ErrorLocf, fmt.Errorf, errors.New) has a provably non-empty message, every gqlerror.Error literal outside the constructors sets Message or is completed by options, and ErrorPosf reaches ErrorLocf on every path; (R3) the struct tags of gqlerror.Error and Location give the response shape and no custom marshaller overrides it; (R4) ast.Path elements have string/int underlying types, any custom marshaller does not quote names with Go syntax, UnmarshalJSON maps string->PathName and float64->PathIndex, String handles every implementer; (R5) the file, line and column of every ErrorLocf call come from one position (or the lexer's own state), and every AST node the loader synthesises carries a Position. (R6) every location is positive: at every lexer call that builds an error line >= 1 and endRunes - lineStartRunes >= 0, and at every return of a finished token Pos.Line >= 1 and Pos.Column >= 1 (abstract interpretation of the lexer; tokens are where every other location is copied from).", runC20)
 }
 
 // mustElems returns the values that are certainly elements of slice v at this point
@@ -974,6 +974,74 @@ func runC20(c *Ctx) {
 	}
 	sort.Strings(ws)
 	c.Extra["c20_format_wrappers"] = ws
+
+	// ---- R6 the coordinates every location is copied from are positive
+	r6 := c.Rule("R6", "line >= 1 and column >= 1 wherever the lexer builds an error or a token", 10)
+	c20PositiveCoordinates(c, r6)
+}
+
+// c20PositiveCoordinates: every Location of a parse, load or validation error is copied from the lexer's cursor (its own
+// errors) or from a token's Position (R5, C04.R4). With the lexer's invariant, the abstract interpreter proves at every
+// call that builds an error line >= 1 and endRunes - lineStartRunes >= 0, and at every return of a finished token
+// Pos.Line >= 1 and Pos.Column >= 1 — so no location has a zero or negative line or column (a zero one
+// would also vanish from the JSON encoding).
+func c20PositiveCoordinates(c *Ctx, r *RuleResult) {
+	p := c.P
+	makeErr := p.Func("lexer.(*Lexer).makeError")
+	makeVal := p.Func("lexer.(*Lexer).makeValueToken")
+	if makeErr == nil || makeVal == nil {
+		r.AnchorLost("lexer.(*Lexer).makeError / makeValueToken")
+		return
+	}
+	e, _, ok := lexerEngine(c, func(e *absEngine) {
+		e.onCall = func(e *absEngine, f *frame, st *nst, call *ssa.Call) {
+			if !f.rec {
+				return
+			}
+			switch call.Call.StaticCallee() {
+			case makeErr:
+				ln := st.lb(lvar("c:line"))
+				col := st.lb(lvar("c:endRunes").minus(lvar("c:lineStartRunes")))
+				e.record(f, call.Pos(), "error coordinates in "+e.p.FuncName(f.fn), "line >= 1 and endRunes - lineStartRunes + 1 >= 1", ln >= 1 && col >= 0, fmt.Sprintf("line >= %s, endRunes-lineStartRunes >= %s", bstr(ln), bstr(col)))
+			}
+		}
+	})
+	if !ok {
+		r.AnchorLost("lexer.Lexer / lexer.(*Lexer).ReadToken")
+		return
+	}
+	var keys []string
+	for k, o := range e.obl {
+		if strings.HasPrefix(o.what, "error coordinates") {
+			keys = append(keys, k)
+		}
+	}
+	sort.Strings(keys)
+	for _, k := range keys {
+		o := e.obl[k]
+		if o.ok {
+			r.OK(fmt.Sprintf("%s %s", p.Pos(o.pos), o.what), o.need+fmt.Sprintf(" (proved in %d context(s))", o.seen))
+		} else {
+			r.Fail(o.pos, o.fn, o.what, fmt.Sprintf("cannot prove %s: %s — a location with a zero or negative line or column can be reported (and a zero one is dropped from the JSON encoding)", o.need, o.detail))
+		}
+	}
+	// tokens: the obligations of C04.R1 that bound the coordinates from below
+	obs := tokenCoordinateObligations(c, r)
+	var tk []string
+	for k, o := range obs {
+		if o.what == "Pos.Column >= 1" || o.what == "Pos.Line >= 1" || o.what == "token coordinates tracked" {
+			tk = append(tk, k)
+		}
+	}
+	sort.Strings(tk)
+	for _, k := range tk {
+		o := obs[k]
+		if o.ok {
+			r.OK(p.Pos(o.pos)+" "+o.fn+": "+o.what, "at this return of a finished token")
+		} else {
+			r.Fail(o.pos, o.fn, o.what, fmt.Sprintf("at this return of a successfully built token the analysis cannot prove %s (%s): parse, load and validation errors copy their line and column from token positions", o.what, o.why))
+		}
+	}
 }
 
 // c20ResolveOption: an option passed as a closure parameter is resolved to the argument at its call sites
